@@ -10,6 +10,7 @@ import UtreexoVerif.Driver.ProofOps
 import UtreexoVerif.Driver.ProofUpdate
 import UtreexoVerif.Driver.Alias
 import UtreexoVerif.Driver.Conc
+import UtreexoVerif.Driver.ConcLin
 
 namespace UtreexoVerif.Driver
 open Std
@@ -50,6 +51,7 @@ def handleLine (line : String) : M Unit := do
   | "concw" :: rest => handleConcW line rest
   | "concstress" :: rest => handleConcStress line rest
   | ["conctable"] => handleConcTable line
+  | "conclin" :: rest => handleConcLin line rest
   | _ => parseError line
 
 partial def loop (h : IO.FS.Stream) : M Unit := do
